@@ -39,7 +39,8 @@ typedef ssize_t (*rw_fn) (int, void *, size_t) ;
 static rw_fn next_write, next_read ;
 static int looked_up ;
 
-static void
+/* resolved when the process starts (a constructor), so that dlsym's own allocations are made before any `ledger begin` (C16 / C15 count heap blocks) */
+static void __attribute__ ((constructor))
 lookup (void)
 {	looked_up = 1 ;
 	next_write = (rw_fn) dlsym (RTLD_NEXT, "write") ;
